@@ -496,20 +496,48 @@ fn basic_pieces(pattern: &str, regex_type: RegexType) -> Vec<BasicPiece<'_>> {
 /// "\\{1,\\}" and "\\{0,1\\}" (GNU's definition of the syntax; the engine's has no
 /// such operators).
 fn spell_basic_operators(pattern: &str, regex_type: RegexType) -> String {
-    if !matches!(regex_type, RegexType::Grep | RegexType::PosixBasic) {
-        return pattern.to_owned();
+    match regex_type {
+        RegexType::Emacs => return pattern.to_owned(),
+        RegexType::PosixExtended => return spell_open_intervals(pattern, regex_type),
+        RegexType::Grep | RegexType::PosixBasic => {}
     }
     let strict = matches!(regex_type, RegexType::PosixBasic);
-    basic_pieces(pattern, regex_type)
-        .into_iter()
-        .map(|piece| match piece {
-            BasicPiece::BraceAtStart if !strict => "{",
-            BasicPiece::BraceAtStart => "\\{",
-            BasicPiece::Repeat("\\+") if strict => "\\{1,\\}",
-            BasicPiece::Repeat("\\?") if strict => "\\{0,1\\}",
-            BasicPiece::Repeat(text) | BasicPiece::Other(text) => text,
-        })
-        .collect()
+    let mut result = String::with_capacity(pattern.len());
+    for piece in basic_pieces(pattern, regex_type) {
+        match piece {
+            BasicPiece::BraceAtStart if !strict => result.push('{'),
+            BasicPiece::BraceAtStart => result.push_str("\\{"),
+            BasicPiece::Repeat("\\+") if strict => result.push_str("\\{1,\\}"),
+            BasicPiece::Repeat("\\?") if strict => result.push_str("\\{0,1\\}"),
+            // GNU's "\\{,n\\}" is "\\{0,n\\}" (the engine wants the lower bound written).
+            BasicPiece::Repeat(text) if text.starts_with("\\{,") => {
+                result.push_str("\\{0");
+                result.push_str(&text[2..]);
+            }
+            BasicPiece::Repeat(text) | BasicPiece::Other(text) => result.push_str(text),
+        }
+    }
+    result
+}
+
+/// A POSIX extended pattern with the lower bound of every interval written:
+/// GNU's "{,n}" is "{0,n}" (the engine wants it written).
+fn spell_open_intervals(pattern: &str, regex_type: RegexType) -> String {
+    let mut result = String::with_capacity(pattern.len());
+    let mut rest = pattern;
+    while let Some(ch) = rest.chars().next() {
+        let len = match ch {
+            '\\' => 1 + rest[1..].chars().next().map_or(0, char::len_utf8),
+            '[' => rest.len() - after_bracket(&rest[1..], regex_type).len(),
+            _ => ch.len_utf8(),
+        };
+        result.push_str(&rest[..len]);
+        rest = &rest[len..];
+        if ch == '{' && rest.starts_with(',') {
+            result.push('0');
+        }
+    }
+    result
 }
 
 /// What follows the bracket expression whose "[" has just been read (nothing
